@@ -1,6 +1,7 @@
 import GmqttVerif.Model.Broker
 import GmqttVerif.Proofs.C07Broker
 import GmqttVerif.Generated.PubOrder
+import GmqttVerif.Model.RetainRace
 /-
   C07 (broker level) — Retained messages: last value per topic, replayed to new subscriptions per spec.
 
@@ -455,5 +456,27 @@ open GmqttVerif.Generated
     although the publisher is acknowledged and the message is kept afterwards. -/
 theorem retained_updated_between_hook_and_delivery :
     publishOrderN = [0, 1, 1, 2] ∧ willOrderN = [0, 1, 1, 2] := by decide
+
+/-! The order matters under concurrency, and only there (`Model/RetainRace.lean`): a SUBSCRIBE of another connection is handled by
+    another goroutine; its two steps (install the subscription, read the retained store) interleave freely with the publisher's. -/
+open GmqttVerif.RetainRace in
+/-- With the store updated BEFORE the delivery, a subscriber whose SUBSCRIBE races with an accepted retained PUBLISH gets the
+    message at least once in every interleaving (retained replay, live copy, or both). -/
+theorem store_then_deliver_never_loses :
+    ∀ l ∈ interleavings [.store, .deliver] [.install, .replay], 1 ≤ (run l).copies := by decide
+
+open GmqttVerif.RetainRace in
+/-- With the delivery in front of the store update there is an interleaving in which the subscriber gets nothing although the
+    message is retained afterwards — the schedule `deliver, install, replay, store`. -/
+theorem deliver_then_store_can_lose :
+    ∃ l ∈ interleavings [.deliver, .store] [.install, .replay], (run l).copies = 0 ∧ (run l).stored = true :=
+  ⟨[.deliver, .install, .replay, .store], by decide, by decide⟩
+
+open GmqttVerif.RetainRace in
+/-- The program orders read from the source ARE the safe ones: publisher `store, deliver`; subscriber `install, replay`
+    (with `replay` before `install` the subscriber could also be missed: `replay, store, deliver, install`). -/
+theorem source_orders_are_safe :
+    ofCodes publishOrderN = [.store, .deliver] ∧ ofCodes willOrderN = [.store, .deliver] ∧ ofCodes subscribeOrderN = [.install, .replay]
+    ∧ ∀ l ∈ interleavings (ofCodes publishOrderN) (ofCodes subscribeOrderN), 1 ≤ (run l).copies := by decide
 
 end GmqttVerif.C07Order
